@@ -273,6 +273,25 @@ def check_C14(tier, seed):
     r = tlc("AtomFlow", "MC_AtomFlow_keepnonce.cfg", workers=2, name="mc_atomflow_mut3")
     if r["ok"] or r["violated"] != "NoReuse":
         raise ToolError("AtomFlow with KEEPNONCE = TRUE does not violate NoReuse: the model is vacuous")
+    # the commitment-scalar space: Hiding.tla (must fail for the two spec mutants) and the space observed from the real prover
+    mh = tlc_model("Hiding", "MC_Hiding.cfg", workers=2, name="mc_hiding", coverage=False)
+    for cfg, what in (("MC_Hiding_sharelock.cfg", "SHARE_LOCK"), ("MC_Hiding_digitshares.cfg", "DIGIT_SHARES")):
+        r = tlc("Hiding", cfg, workers=2, name="mc_hiding_mut")
+        if r["ok"] or r["violated"] != "Hiding":
+            raise ToolError(f"Hiding.tla with {what} = TRUE does not violate Hiding: the model is vacuous")
+    dh = os.path.join(WORK, "C14_run")
+    os.makedirs(dh, exist_ok=True)
+    hp = os.path.join(dh, "hiding.trace.ndjson")
+    harness(["hiding", "--out", hp, "--seed", seed, "--tier", tier])
+    vh = validate_trace("Trace_Hiding", "Trace_Hiding.cfg", hp, name="trace_C14_hiding")
+    hev = [json.loads(l) for l in open(hp)]
+    if not vh["accepted"]:
+        e = hev[vh["matched"]]
+        want = 6 if e["proof"] == "establish" else 24
+        raise Violation("C14", f"commitment scalars of the {e['proof']} proof: designed links hold = {e['links_hold']}, the recovered commitment-scalar vectors span a space of "
+                               f"dimension {e['rank']} instead of {want} ({e['samples']} honest proofs, {e['slots']} response slots): a scalar is shared, fixed or derived beyond the "
+                               f"designed links, so hidden values can be derived from the responses (Hiding.tla)",
+                        {"kind": "hiding", "property": "C14", "seed": seed, "event": e})
     walks = tlc_simulate_steps("MCX_ZkAbacus", "MCX_ZkAbacus_sim.cfg", 6 if q else 40, 45 if q else 70, seed, name="sim_C14")
     lines = protodrv.scripts_from_walks(walks, SCALE_BIG)
     rng = random.Random(seed * 7 + 3)
@@ -315,7 +334,8 @@ def check_C14(tier, seed):
     msgs = [e for e in events if e["ev"] == "msg"]
     closes = sum(1 for e in msgs if e["kind"] == "close")
     stages_closed = {json.loads(l).get("stage") for l in open(tp) if '"ev":"close"' in l}
-    cov = {"states": m["distinct"], "transitions": m["generated"], "traces_validated_against_impl": len(walks) + (8 if q else 60),
+    cov = {"states": m["distinct"] + mh["distinct"], "transitions": m["generated"] + mh["generated"], "traces_validated_against_impl": len(walks) + (8 if q else 60),
+           "commitment_scalar_space": hev,
            "evaluations": len(msgs), "distinct_nontrivial": len({(e["dir"], e["kind"], e["ch"], len(e["atoms"])) for e in msgs}),
            "rule": "one evaluation = one message of a real protocol history (both directions; histories from TLC walks of ZkAbacus.tla and the random driver on up to 3 channels with refused replies and closes "
                    "from every stage): every 32/48/96-byte atom interned and compared with everything the merchant saw before (earlier messages, public parameters of all merchants) and with the secret "
